@@ -128,6 +128,40 @@ def DecodeFixed64.body (fuel : Nat) : DecodeFixed64.St → Go.Out DecodeFixed64.
 def DecodeFixed64 (fuel : Nat) (p : Bytes) : Go.Out DecodeFixed64.St DecodeFixed64.R :=
   DecodeFixed64.body fuel { p := p }
 
+/-! ### `EncodeFixed32` (/repo/encoder.go:418:1) -/
+
+structure EncodeFixed32.St where
+  dest : Bytes
+  v : BitVec 32
+
+abbrev EncodeFixed32.R := BitVec 64
+
+/-- the body of `EncodeFixed32`, statement by statement -/
+def EncodeFixed32.body (fuel : Nat) : EncodeFixed32.St → Go.Out EncodeFixed32.St EncodeFixed32.R :=
+  (Go.seq (Go.seq (fun s => if 4 ≤ s.dest.length then .next { s with dest := Go.putLE s.dest 4 (s.v).toNat } else .panic)
+    (fun s => .ret (4#64) s))
+    Go.missingReturn)
+
+def EncodeFixed32 (fuel : Nat) (dest : Bytes) (v : BitVec 32) : Go.Out EncodeFixed32.St EncodeFixed32.R :=
+  EncodeFixed32.body fuel { dest := dest, v := v }
+
+/-! ### `EncodeFixed64` (/repo/encoder.go:425:1) -/
+
+structure EncodeFixed64.St where
+  dest : Bytes
+  v : BitVec 64
+
+abbrev EncodeFixed64.R := BitVec 64
+
+/-- the body of `EncodeFixed64`, statement by statement -/
+def EncodeFixed64.body (fuel : Nat) : EncodeFixed64.St → Go.Out EncodeFixed64.St EncodeFixed64.R :=
+  (Go.seq (Go.seq (fun s => if 8 ≤ s.dest.length then .next { s with dest := Go.putLE s.dest 8 (s.v).toNat } else .panic)
+    (fun s => .ret (8#64) s))
+    Go.missingReturn)
+
+def EncodeFixed64 (fuel : Nat) (dest : Bytes) (v : BitVec 64) : Go.Out EncodeFixed64.St EncodeFixed64.R :=
+  EncodeFixed64.body fuel { dest := dest, v := v }
+
 /-! ### `EncodeTag` (/repo/encoder.go:394:1) -/
 
 structure EncodeTag.St where
@@ -1207,6 +1241,44 @@ def Encoder_EncodeRaw.body (fuel : Nat) : Encoder_EncodeRaw.St → Go.Out Encode
 
 def Encoder_EncodeRaw (fuel : Nat) (e_p : Bytes) (e_offset : BitVec 64) (d : Bytes) : Go.Out Encoder_EncodeRaw.St Encoder_EncodeRaw.R :=
   Encoder_EncodeRaw.body fuel { e_p := e_p, e_offset := e_offset, d := d }
+
+/-! ### `Encoder.EncodeFixed32` (/repo/encoder.go:87:1) -/
+
+structure Encoder_EncodeFixed32.St where
+  e_p : Bytes
+  e_offset : BitVec 64
+  tag : BitVec 64
+  v : BitVec 32
+
+abbrev Encoder_EncodeFixed32.R := Unit
+
+/-- the body of `Encoder_EncodeFixed32`, statement by statement -/
+def Encoder_EncodeFixed32.body (fuel : Nat) : Encoder_EncodeFixed32.St → Go.Out Encoder_EncodeFixed32.St Encoder_EncodeFixed32.R :=
+  (Go.seq (Go.seq (fun s => if ((s.e_offset).toNat ≤ s.e_p.length) then match (EncodeTag fuel (s.e_p.drop (s.e_offset).toNat) s.tag 5#64) with | .ret r c => .next { s with e_p := s.e_p.take (s.e_offset).toNat ++ c.dest, e_offset := (s.e_offset + r) } | .next _ => .panic | .panic => .panic | .diverge => .diverge else .panic)
+    (fun s => if ((s.e_offset).toNat ≤ s.e_p.length) then match (EncodeFixed32 fuel (s.e_p.drop (s.e_offset).toNat) s.v) with | .ret r c => .next { s with e_p := s.e_p.take (s.e_offset).toNat ++ c.dest, e_offset := (s.e_offset + r) } | .next _ => .panic | .panic => .panic | .diverge => .diverge else .panic))
+    (fun s => .ret () s))
+
+def Encoder_EncodeFixed32 (fuel : Nat) (e_p : Bytes) (e_offset : BitVec 64) (tag : BitVec 64) (v : BitVec 32) : Go.Out Encoder_EncodeFixed32.St Encoder_EncodeFixed32.R :=
+  Encoder_EncodeFixed32.body fuel { e_p := e_p, e_offset := e_offset, tag := tag, v := v }
+
+/-! ### `Encoder.EncodeFixed64` (/repo/encoder.go:94:1) -/
+
+structure Encoder_EncodeFixed64.St where
+  e_p : Bytes
+  e_offset : BitVec 64
+  tag : BitVec 64
+  v : BitVec 64
+
+abbrev Encoder_EncodeFixed64.R := Unit
+
+/-- the body of `Encoder_EncodeFixed64`, statement by statement -/
+def Encoder_EncodeFixed64.body (fuel : Nat) : Encoder_EncodeFixed64.St → Go.Out Encoder_EncodeFixed64.St Encoder_EncodeFixed64.R :=
+  (Go.seq (Go.seq (fun s => if ((s.e_offset).toNat ≤ s.e_p.length) then match (EncodeTag fuel (s.e_p.drop (s.e_offset).toNat) s.tag 1#64) with | .ret r c => .next { s with e_p := s.e_p.take (s.e_offset).toNat ++ c.dest, e_offset := (s.e_offset + r) } | .next _ => .panic | .panic => .panic | .diverge => .diverge else .panic)
+    (fun s => if ((s.e_offset).toNat ≤ s.e_p.length) then match (EncodeFixed64 fuel (s.e_p.drop (s.e_offset).toNat) s.v) with | .ret r c => .next { s with e_p := s.e_p.take (s.e_offset).toNat ++ c.dest, e_offset := (s.e_offset + r) } | .next _ => .panic | .panic => .panic | .diverge => .diverge else .panic))
+    (fun s => .ret () s))
+
+def Encoder_EncodeFixed64 (fuel : Nat) (e_p : Bytes) (e_offset : BitVec 64) (tag : BitVec 64) (v : BitVec 64) : Go.Out Encoder_EncodeFixed64.St Encoder_EncodeFixed64.R :=
+  Encoder_EncodeFixed64.body fuel { e_p := e_p, e_offset := e_offset, tag := tag, v := v }
 
 /-! ### `Encoder.EncodePackedBool` (/repo/encoder.go:117:1) -/
 
